@@ -896,7 +896,16 @@ impl<'a> Collector<'a> {
 
   fn if_else(&mut self, i: &expr::IfElse<T>) {
     match i.condition.as_ref() {
-      expr::IfElseCondition::Expression(c) => self.expr(c),
+      expr::IfElseCondition::Expression(c) => {
+        self.expr(c);
+        // the condition must be bool (spec.md 6.10.1): it is replaced by an int / string literal
+        let l = c.loc();
+        if let (Some((a0, b0)), Some((s, en))) = (self.range(&l, "expr"), self.text.span(&l)) {
+          for (sub, text, tok) in [("if-condition-int", "(7)", "Int(7)"), ("if-condition-str", "(\"s\")", "Str(s)")] {
+            self.push("operand-type", sub, s, en, text.into(), vec![Splice { at: a0, del: b0 - a0, ins: vec![tok.into()] }]);
+          }
+        }
+      }
       expr::IfElseCondition::Guard(p, c) => {
         self.pat(p);
         self.expr(c);
